@@ -363,10 +363,14 @@ func (f *file) ReadDir(n int) ([]hackpadfs.DirEntry, error) {
 		return nil, &hackpadfs.PathError{Op: "readdir", Path: f.path, Err: err}
 	}
 	start, end := f.offset, f.offset+int64(n)
-	if n <= 0 {
-		start, end = 0, int64(len(dirNames))
-	} else if end > int64(len(dirNames)) {
-		end = int64(len(dirNames))
+	if start > int64(len(dirNames)) {
+		start = int64(len(dirNames))
+	}
+	if n <= 0 || end > int64(len(dirNames)) {
+		end = int64(len(dirNames)) // n <= 0 returns all remaining entries
+	}
+	if n > 0 && start == end {
+		return nil, io.EOF // no entries remain
 	}
 	offsetAdd := end - start
 
